@@ -21,6 +21,8 @@ RULES = {
     'C19.d': 'default strategy Newer for the admin database and for databases loaded without a metadata file',
     'C19.g': 'the store stamps an entry with the opp_id of the change that wrote it (issue order): the Newer comparison '
              'change.opp_id > stored.opp_id is then between two issue times, never between an issue time and an apply time',
+    'C19.h': 'the version a resolving re-apply stores is old.version + 1 when the stored entry is not in conflict resolution (the stored '
+             'version still only grows): the return table of Change::next_version, shared with C13.d',
     'C19.f': 'the conflict entry point calls the resolver only for VersionError; the resolver switches on metadata.consensus_strategy',
 }
 
@@ -28,6 +30,17 @@ RULES = {
 def run(ck, m):
     _run(ck, m)
     stamp_rule(ck, m)
+    # the return table of next_version is evaluated by C13.d; its verdict is repeated here because the Newer re-apply depends on it
+    from nl import report
+    from props import C13
+    tmp = report.Check('C13', 'quick', 0)
+    try:
+        C13._run(tmp, m)
+    except Exception as e:      # fail closed
+        ck.undecided('C19.h', 'next_version', 'table', 'C13.d could not be evaluated: %s' % e)
+    for o in tmp.obs:
+        if o['key'].endswith(':return-table'):
+            ck.ob('C19.h', o['key'].split(':')[1], 'return-table', o['verdict'] == 'discharged', o['what'], o['loc'])
 
 
 def _run(ck, m):
